@@ -181,6 +181,7 @@ class Server(object):
     self.up = True
     self.connect_script = list(connect_script or [])
     self.default_connect = ['accept', 0.001]
+    self.down_refuse_delay = 0.0005
     self.conns = []
     self.n_connects = 0
     peer.server = self
@@ -190,7 +191,7 @@ class Server(object):
     i = self.n_connects
     self.n_connects += 1
     if not self.up:
-      return ['refuse', 0.0005]
+      return ['refuse', self.down_refuse_delay]
     if i < len(self.connect_script):
       return self.connect_script[i]
     return self.default_connect
@@ -223,6 +224,7 @@ class SimNet(object):
     self.io_fault = None   # fn(sock, op, index) -> None | 'raise' | 'eof'
     self.gate = None       # fn(sock, bytes) -> Event | None
     self.chunker = None    # fn(sock, avail, want) -> n
+    self.on_connect = None # fn(sock): called when a connect attempt starts
     self.sockets = []
 
   def install(self):
@@ -248,6 +250,8 @@ class SimNet(object):
     self._cid += 1
     sock.cid = self._cid
     sock.addr = (addr[0], addr[1])
+    if self.on_connect is not None:
+      self.on_connect(sock)
     srv = self.servers.get(sock.addr)
     self.record('connect', sock, sock.addr)
     script = srv.next_connect() if srv is not None else ['refuse', 0.0005]
